@@ -35,6 +35,8 @@ type Contract struct {
 	Assumed  bool // body exists but contract is assumed, not verified (must be listed)
 	Inline   bool
 	NoSafety bool
+	Replay   string
+	DynTypes []string // result's possible dynamic types (for interface-typed results)
 	File     string
 	Line     int
 	used     bool
@@ -576,6 +578,10 @@ func (g *Gen) loadContractFile(path, pkgPath string, pkg *types.Package) error {
 			cur.Inline = true
 		case "nosafety":
 			cur.NoSafety = true
+		case "replay":
+			cur.Replay = rest
+		case "dyntypes":
+			cur.DynTypes = strings.Fields(rest)
 		case "track":
 			// track <function key relative to package or absolute> as <name>
 			parts := strings.Fields(rest)
@@ -667,4 +673,22 @@ func (g *Gen) expandMacros(e *Expr, depth int) *Expr {
 		}
 	}
 	return &n
+}
+
+func hasGhost(e *Expr) bool {
+	if e == nil {
+		return false
+	}
+	if e.Op == "ghost" {
+		return true
+	}
+	if hasGhost(e.X) || hasGhost(e.Y) {
+		return true
+	}
+	for _, a := range e.Args {
+		if hasGhost(a) {
+			return true
+		}
+	}
+	return false
 }
